@@ -36,6 +36,7 @@ type ModelDraw struct {
 	W    int      `json:"w,omitempty"`
 	V    uint64   `json:"v"`
 	Vs   []uint64 `json:"vs,omitempty"`
+	Stub bool     `json:"s,omitempty"`
 }
 
 type ModelUF struct {
@@ -240,7 +241,7 @@ func (in *Interp) modelFor(extra []*Term) ([]ModelDraw, []ModelUF, bool) {
 	}
 	var draws []ModelDraw
 	for _, d := range in.draws {
-		md := ModelDraw{Kind: d.Kind, W: d.W, V: d.V}
+		md := ModelDraw{Kind: d.Kind, W: d.W, V: d.V, Stub: d.Stub}
 		if d.T != nil {
 			md.V = val(d.T)
 		}
@@ -544,6 +545,10 @@ func (in *Interp) reportViolationMsg(kind, id, msg string) {
 	}
 	ex := in.ex
 	key := kind + "|" + id + "|" + msg
+	if kind == "panic" && len(stack) > 0 {
+		// one finding per panicking call site, whatever the message's numbers
+		key = kind + "|" + id + "|" + stack[0]
+	}
 	ex.mu.Lock()
 	ex.obl(id).Violated++
 	if v, ok := ex.violIndex[key]; ok {
